@@ -25,7 +25,8 @@ class Game(AsyncMode):
 
     __slots__ = ["_balls_in_play", "player_list", "slam_tilted", "tilted", "ending", "num_players",
                  "_stopping_modes", "_stopping_queue", "_end_ball_event", "_at_least_one_player_event",
-                 "balls_per_game", "max_players", "_players_adding", "_no_player_adding_event"]
+                 "balls_per_game", "max_players", "_players_adding", "_no_player_adding_event",
+                 "_first_ball_over"]
 
     def __init__(self, *args, **kwargs):
         """Initialize game."""
@@ -44,6 +45,7 @@ class Game(AsyncMode):
         self._at_least_one_player_event = None  # type: asyncio.Event
         self._players_adding = 0
         self._no_player_adding_event = None     # type: asyncio.Event
+        self._first_ball_over = False
         self.balls_per_game = None
         self.max_players = None
 
@@ -70,6 +72,7 @@ class Game(AsyncMode):
         self._players_adding = 0
         self._no_player_adding_event = asyncio.Event()
         self._no_player_adding_event.set()
+        self._first_ball_over = False
         self.balls_per_game = self.machine.config['game']['balls_per_game'].evaluate([])
 
         # Add add player switch handler
@@ -562,7 +565,8 @@ class Game(AsyncMode):
             self.debug_log("Game is at max players. Cannot add another.")
             return False
 
-        if self.player and self.player.ball > 1:  # todo config setting
+        # (the ball number of the player is only incremented after player_turn_starting of the second ball)
+        if self._first_ball_over or self.player and self.player.ball > 1:  # todo config setting
             self.debug_log("Current ball is after Ball 1. Cannot add player.")
             return False
 
@@ -683,6 +687,10 @@ class Game(AsyncMode):
         # set the first player, do that now.
         if not self.player:
             await self._rotate_players()
+
+        if self.player.ball >= 1:
+            # the first ball of all players is over. no more players can be added
+            self._first_ball_over = True
 
         await self.machine.events.post_async('player_turn_will_start',
                                              player=self.player,
